@@ -10,7 +10,7 @@ cp /repo/src/pylife/*.so "$WT/src/pylife/" 2>/dev/null
 if ! git -C "$WT" apply "$PATCH"; then echo "patch does not apply"; git -C /repo worktree remove --force "$WT"; exit 2; fi
 cd "$(dirname "$0")/.." || exit 2
 LOG=$(mktemp)
-PYLIFE_REPO="$WT" ./check "$P" --tier "$TIER" > "$LOG" 2>&1
+VERIF_EVIDENCE_DIR=$(mktemp -d) PYLIFE_REPO="$WT" ./check "$P" --tier "$TIER" > "$LOG" 2>&1
 rc=$?
 grep -v "^WARNING conda" "$LOG" | tail -${TAIL:-12}
 rm -f "$LOG"
